@@ -204,6 +204,10 @@ def jobs(tier):
         add("cplx-sample-2x2-%s" % s, "per_sample", kind="complex", n=2, h=2, a=None, strings=[s])
     add("cplx-batch-2x2", "batch", kind="complex", n=2, h=2, a=None, data=[[0, 1], [1, 1], [0, 1], [1, 0], [0, 0]], bases=["XY", "ZZ", "XY", "YZ", "ZZ"])
     add("cplx-batch-1x2", "batch", kind="complex", n=1, h=2, a=None, data=[[0], [1], [1], [0]], bases=["X", "Z", "Y", "X"])
+    # one batch holding every basis string of two sites (grouping of rows by basis must keep all 9 apart), rows not grouped by basis
+    nine = ["ZX", "XY", "YZ", "XZ", "YX", "ZZ", "XX", "ZY", "YY", "XZ"]
+    add("cplx-batch-2x1-all-strings", "batch", kind="complex", n=2, h=1, a=None,
+        data=[[0, 1], [1, 1], [1, 0], [0, 0], [1, 1], [0, 1], [1, 0], [1, 1], [0, 0], [1, 0]], bases=nine)
     # mixed
     for s in all_strings(1):
         add("mixed-sample-111-%s" % s, "per_sample", kind="mixed", n=1, h=1, a=1, strings=[s])
@@ -221,6 +225,8 @@ def jobs(tier):
         for s in ["XY", "YZ", "ZZ", "YY"]:
             for oc in range(4):
                 add("mixed-sample-211-%s-%d" % (s, oc), "per_sample", kind="mixed", n=2, h=1, a=1, strings=[s], outcomes=[oc])
+        add("mixed-batch-211-all-strings", "batch", kind="mixed", n=2, h=1, a=1,
+            data=[[0, 1], [1, 1], [1, 0], [0, 0], [1, 1], [0, 1], [1, 0], [1, 1], [0, 0], [1, 0]], bases=nine)
         add("mixed-batch-122", "batch", kind="mixed", n=1, h=2, a=2, data=[[0], [1], [1], [0]], bases=["Y", "Z", "Y", "X"])
     return J
 
